@@ -30,12 +30,14 @@ def _(cmd: str) -> Opt[str]:
 @contract("_call_validator")
 def _(path_to_xform: str) -> PopenResult:
     trusted("subprocess + watchdog thread (run_popen_with_timeout) are outside the family; the result triple is the quantified input")
+    no_native("prover-side abstraction over an uninterpreted outcome")
     ensures(result == ValidatorResult(path_to_xform))
 
 
 @contract("ErrorCleaner.odk_validate", module="pyxform.validators.error_cleaner")
 def _(error_message: str) -> str:
     trusted("regex based cleaner, contracted at string level in contracts/error_cleaner.py (bounded)")
+    no_native("prover-side abstraction; the executable contract is in contracts/error_cleaner.py")
     ensures(result == Cleaned(error_message))
 
 
